@@ -195,7 +195,7 @@ def sigkey(v):
 
 
 # ---------------------------------------------------------------- shrinking
-def shrink(binp, prop, tier, plan_lines, target, engine, budget=400):
+def shrink(binp, prop, tier, plan_lines, target, engine, budget=400, vstep=None):
     """ddmin over steps, then per-step simplification; a candidate is accepted only if it
     reproduces the same signature class."""
     head, steps = plan_lines[0], list(plan_lines[1:])
@@ -208,6 +208,11 @@ def shrink(binp, prop, tier, plan_lines, target, engine, budget=400):
         r = exec_plan(binp, prop, tier, [head] + st)
         return r['violation'] is not None and sigkey(r['violation']) == target
 
+    # shortcut: most violations need only the violating step (plus, at most, the step before it)
+    if vstep is not None and 0 <= vstep < len(steps) and len(steps) > 1:
+        for cand in ([steps[vstep]], steps[max(0, vstep - 1):vstep + 1]):
+            if len(cand) < len(steps) and fails(cand):
+                steps = cand; break
     n = 2
     while len(steps) >= 2 and runs[0] < budget:
         chunk = max(1, len(steps) // n); reduced = False
@@ -526,7 +531,7 @@ def main():
                 harness_problems.append('violation does not replay deterministically on %s: sig=%s run=%s hashes=%s/%s errs=%s/%s' % (
                     c['id'], v['sig'], v['run'], r1['log_hash'], r2['log_hash'], r1['harness_error'], r2['harness_error']))
                 continue
-            small, tries = shrink(binp, prop, args.tier, v['plan'], sigkey(v), engine)
+            small, tries = shrink(binp, prop, args.tier, v['plan'], sigkey(v), engine, vstep=v.get('step'))
             rf = exec_plan(binp, prop, args.tier, small)
             vv = rf['violation'] or r1['violation']
             vv['detail'] = symbolise(binp, vv.get('detail'))
